@@ -6,7 +6,7 @@
   over the modelled algorithm set, EVERY leaf script and EVERY sequence of external events.
   Schedule level: the atomic protocols of when_all / stop_when are in Props/C01_Atomic.lean.
 -/
-import UnifexModel.Calc.Lemmas
+import UnifexModel.Calc.Coh
 
 namespace Unifex.Props.C01
 open Unifex.Calc
@@ -70,6 +70,48 @@ theorem root_silent_before_start (e : Expr) (evs : List Ev) (h : ∀ ev ∈ evs,
       · exact hp
       · exact ih op hop (fun ev' h' => hev ev' (List.mem_cons_of_mem _ h')) p hp
   exact key _ (connect_idle e) evs h
+
+/-! ### No lost completion -/
+
+/-- the tree after a list of events (top level: fuel = height + 1) -/
+def after (op : Op) : List Ev → Op
+  | [] => op
+  | ev :: evs => after (deliver specs (op.height + 1) ev op).1 evs
+
+theorem coh_after (op : Op) (evs : List Ev) (h : Coh op) : Coh (after specs op evs) := by
+  induction evs generalizing op with
+  | nil => exact h
+  | cons ev evs ih =>
+    exact ih _ ((recCoh_deliver specs op.height).coh ev op (Nat.le_refl _) h)
+
+/-- **No silently lost completion**: after ANY sequence of events on ANY expression, an operation
+    that is still running has at least one started-and-not-yet-completed leaf below it.  So when
+    every leaf that was started has completed, the operation is not running any more. -/
+theorem no_lost_completion (e : Expr) (evs : List Ev)
+    (hq : (after specs (connect e) evs).pending = []) : (after specs (connect e) evs).phase ≠ .running := by
+  intro hr
+  exact pending_of_running _ (coh_after specs _ evs (allIdle_coh _ (allIdle_connect e))) hr hq
+
+/-- … and it became finished by signalling: an event that leaves a previously unfinished operation
+    finished delivers the completion signal in that same event.  (With `root_at_most_once` this is
+    "exactly once".) -/
+theorem finishing_signals (op : Op) (ev : Ev) (hc : Coh op) (hp : op.phase = .running)
+    (hf : (deliver specs (op.height + 1) ev op).1.phase = .finished) :
+    (deliver specs (op.height + 1) ev op).2.2.isSome = true := by
+  cases hn : (deliver specs (op.height + 1) ev op).2.2 with
+  | some o => rfl
+  | none =>
+    have := (recCoh_deliver specs op.height).run ev op (Nat.le_refl _) hc hp hn
+    rw [this] at hf; cases hf
+
+/-- the same for start(): a start that leaves the operation finished has signalled -/
+theorem start_finishing_signals (e : Expr) (env : Env)
+    (hf : (deliver specs ((connect e).height + 1) (.start env) (connect e)).1.phase ≠ .running) :
+    (deliver specs ((connect e).height + 1) (.start env) (connect e)).2.2.isSome = true := by
+  cases hn : (deliver specs ((connect e).height + 1) (.start env) (connect e)).2.2 with
+  | some o => rfl
+  | none =>
+    exact absurd ((recCoh_deliver specs (connect e).height).start env (connect e) (Nat.le_refl _) (allIdle_connect e) hn) hf
 
 /-- non-vacuity: a concrete expression with pending leaves that does complete exactly once -/
 example :
